@@ -6,7 +6,7 @@ from functools import cached_property
 from pathlib import Path, PurePath
 from typing import TYPE_CHECKING, Any, Iterator, Optional
 
-from vyper.exceptions import JSONError
+from vyper.exceptions import JSONError, StructureException
 from vyper.utils import sha256sum
 
 # a type to make mypy happy
@@ -65,7 +65,10 @@ class JSONInput(CompilerInput):
 
     @classmethod
     def from_file_input(cls, file_input: FileInput) -> "JSONInput":
-        s = json.loads(file_input.source_code)
+        try:
+            s = json.loads(file_input.source_code)
+        except json.JSONDecodeError as e:
+            raise StructureException(f"Invalid json in '{file_input.path}': {e}") from None
         return cls(**asdict(file_input), data=s)
 
     def __hash__(self):
